@@ -87,7 +87,7 @@ def gen(rng, tier):
             pv = rng.choice([q_ for q_ in (1, 2, 3) if q_ != p_])
             kvv, sv = G.knots(rng, pv, max_interior=1, allow_range=False)
             if sv == n_:
-                kvv = kvv[:pv + 1] + [F(1, 3)] + kvv[pv + 1:]; sv += 1
+                kvv = sorted(kvv + [F(1, 3) if kvv.count(F(1, 3)) < pv else F(2, 3)]); sv += 1
             P = G.points(rng, n_ * sv, 3)
             if rat:
                 P = G.homogeneous(P, G.weights(rng, n_ * sv))
